@@ -308,6 +308,26 @@ func (g *Engine) registerIntrinsics() {
 	b["verifBytesEq"] = func(e *Exec, fn *ssa.Function, a []Value) Value {
 		return e.bytesEq(a[0], a[1])
 	}
+	// verifFuncName: the name of a function value (closures additionally show their constant
+	// captured values, so that makeDup(3) and makeDup(4) differ)
+	b["verifFuncName"] = func(e *Exec, fn *ssa.Function, a []Value) Value {
+		ifc, _ := a[0].(Iface)
+		f, _ := ifc.val.(*Func)
+		if ifc.typ == nil || f == nil || f.fn == nil {
+			return e.strConst("")
+		}
+		name := f.fn.Name()
+		for _, fv := range f.free {
+			if t, ok := fv.(*Term); ok && t.IsConst() {
+				name += "[" + t.val.String() + "]"
+			} else if p, ok := fv.(Ptr); ok && p.obj != nil {
+				if t, ok := e.load(p).(*Term); ok && t.IsConst() {
+					name += "[" + t.val.String() + "]"
+				}
+			}
+		}
+		return e.strConst(name)
+	}
 	// verifCloneBytes: an independent copy with the same content (a snapshot of the array term,
 	// so that two executions started from "the same bytes" build syntactically equal terms)
 	b["verifCloneBytes"] = func(e *Exec, fn *ssa.Function, a []Value) Value {
